@@ -3,6 +3,7 @@
 #include "bridge.h"
 #include "registry.h"
 #include "score.h"
+#include "ucirig.h"
 
 #include <unordered_map>
 
@@ -107,6 +108,40 @@ bool prop_C02(Tape& t, Report& rep)
                 if (--budget <= 0) break;
             }
         }
+        return true;
+    }
+    if (t.chance(1, 6))
+    {
+        // (c) the real UCI text path: `position fen|startpos ... moves ...` (+ `moves ...`) then `printboard`
+        gen::Root game = gen::gen_game(t, &rep, 150);
+        rigns::Rig& R = rigns::rig();
+        size_t split = game.moves.empty() ? 0 : t.choose(uint32_t(game.moves.size()) + 1);
+        bool isStart = ref::to_fen(game.start) == ref::to_fen(ref::startpos());
+        std::string cmd = isStart && t.flag() ? std::string("position startpos") : "position fen " + ref::to_fen(game.start);
+        if (split > 0 || t.flag()) cmd += " moves";
+        for (size_t i = 0; i < split; ++i) cmd += " " + game.moves[i].uci();
+        std::string cmd2;
+        if (split < game.moves.size())
+        {
+            cmd2 = "moves";
+            for (size_t i = split; i < game.moves.size(); ++i) cmd2 += " " + game.moves[i].uci();
+        }
+        rep.decoded = cmd + (cmd2.empty() ? "" : " ; " + cmd2) + " ; printboard";
+        size_t mark = R.out.size();
+        R.send(cmd);
+        if (!cmd2.empty()) R.send(cmd2);
+        R.send("printboard");
+        long li = R.out.wait_line(mark, [](const std::string& l) { return l.rfind("Fen: \"", 0) == 0; }, 60000);
+        rep.eval();
+        rep.cls("c02:uci_text_path");
+        if (!cmd2.empty()) rep.cls("c02:uci_moves_command");
+        if (li < 0) return rep.fail("domove:uci:no_answer", "printboard printed no Fen line\n " + rep.decoded);
+        std::string line = R.out.snapshot(size_t(li))[0];
+        std::string got = line.substr(6, line.size() - 7);
+        std::string want = ref::to_fen(game.cur);
+        if (got != want)
+            return rep.fail("domove:uci", "UCI text path: printboard shows a different position than the rules prescribe\n engine FEN: " + got +
+                                              "\n rules  FEN: " + want + "\n session: " + rep.decoded.substr(0, 2000));
         return true;
     }
     // (b) whole games replayed the way `position ... moves ...` does, FEN compared after every ply
